@@ -129,6 +129,21 @@ fn check(c: &DocCase, rec: &mut CaseRec) -> Verdict {
 
 pub fn property() -> Property {
     let families: Vec<Box<dyn Family>> = vec![
+        // deeply nested / very long constructs, analyzed in child processes on a 1 MiB stack
+        enum_family(
+            "deep-nesting",
+            true,
+            |tier| {
+                let d = if tier == Tier::Quick { super::c01::DEPTHS_QUICK.len() } else { super::c01::DEPTHS_THOROUGH.len() };
+                (super::c01::NEST_KINDS.len() * d) as u64
+            },
+            |tier, i| {
+                let depths = if tier == Tier::Quick { super::c01::DEPTHS_QUICK } else { super::c01::DEPTHS_THOROUGH };
+                let i = i as usize;
+                super::c01::NestCase { kind: super::c01::NEST_KINDS[i % super::c01::NEST_KINDS.len()].to_string(), depth: depths[(i / super::c01::NEST_KINDS.len()) % depths.len()], target: "analyze".into() }
+            },
+            super::c01::check_nest,
+        ),
         enum_family(
             "repo-programs",
             true,
@@ -149,8 +164,8 @@ pub fn property() -> Property {
     ];
     Property {
         id: "C05",
-        rule: "File texts: grammar-generated programs (INPUT/STOP allowed) rendered with random spacing/case and mutated at document level (blank / unnumbered / bare-number lines, duplicates of an earlier number that are identical / different / untokenizable / multi-byte / truncated, untokenizable tails, u64-boundary line numbers, garbage lines, non-ASCII tails, truncation, swaps, CRLF variants); character-level mutations of the repo's sample programs; documents of random atom lines over few colliding numbers; raw Unicode and printable text. Oracle: analyze returns; one token list per file line; every message maps to Some((line, range)) with line == the line it names, range inside the line and on char boundaries; per-line token ranges ordered, disjoint, in bounds, on char boundaries. Non-trivial: >= 2 numbered lines and >= 1 diagnostic carrying a program location; distinct by text.",
-        assumptions: vec!["native-stack exhaustion by deeply nested input is decided by the child-process battery of C01 (shared), not in-process"],
+        rule: "File texts: grammar-generated programs (INPUT/STOP allowed) rendered with random spacing/case and mutated at document level (blank / unnumbered / bare-number lines, duplicates of an earlier number that are identical / different / untokenizable / multi-byte / truncated, untokenizable tails, u64-boundary line numbers, garbage lines, non-ASCII tails, truncation, swaps, CRLF variants); character-level mutations of the repo's sample programs; documents of random atom lines over few colliding numbers; raw Unicode and printable text. deep-nesting: 16 nesting / token-run constructs x depths to 30000 (quick) / 300000 (thorough) analyzed in child processes on a 1 MiB stack, judged by exit status. Oracle: analyze returns; one token list per file line; every message maps to Some((line, range)) with line == the line it names, range inside the line and on char boundaries; per-line token ranges ordered, disjoint, in bounds, on char boundaries. Non-trivial: >= 2 numbered lines and >= 1 diagnostic carrying a program location; distinct by text.",
+        assumptions: vec!["native-stack exhaustion is decided by the child-process family (1 MiB stack, optimised harness build), not in-process"],
         fuzz: Some(FuzzSpec { target: "c05_analyze", runs: 400_000, max_len: 2048, verdict: crate::fuzz::c05_verdict }),
         families,
         prelude: None,
